@@ -275,6 +275,9 @@ def call_specop(eng, op, args, kwargs, st):
         body = eng.truth(outs[0][0], st)
         body = z3.BoolVal(body) if isinstance(body, bool) else body
         return ok(Sym(z3.ForAll(vs, body), "bool"), st)
+    if op.name == "unchanged":
+        a, b = args
+        return ok(eng.mkbool(deep_eq(eng, a, b, st)), st)
     if op.name == "implies":
         a, b = args
         ta, tb = eng.truth(a, st), eng.truth(b, st)
@@ -299,6 +302,46 @@ def call_specop(eng, op, args, kwargs, st):
             t = "dict" if isinstance(h, HDict) else "list" if isinstance(h, HList) else (h.cls or "object").split(".")[-1]
         return ok(t == name, st)
     raise Unsupported("spec op %s" % op.name)
+
+
+def deep_eq(eng, a, b, st):
+    """structural equality over the heap graph (frame conditions): same shape, same presence, equal scalars"""
+    if isinstance(a, Ref) and isinstance(b, Ref):
+        if a.oid == b.oid:
+            return True
+        ha, hb = st.heap[a.oid], st.heap[b.oid]
+        if type(ha) is not type(hb):
+            return False
+        if isinstance(ha, HList):
+            if len(ha.items) != len(hb.items):
+                return False
+            return eng._and([deep_eq(eng, x, y, st) for x, y in zip(ha.items, hb.items)])
+        if isinstance(ha, HDict):
+            if ha.keys != hb.keys:
+                return False
+            parts = []
+            for k in ha.keys:
+                pa, pb = ha.pres[k], hb.pres[k]
+                if pa is not True or pb is not True:
+                    pa_t = z3.BoolVal(pa) if isinstance(pa, bool) else pa
+                    pb_t = z3.BoolVal(pb) if isinstance(pb, bool) else pb
+                    parts.append(pa_t == pb_t)
+                    parts.append(eng._or([eng._not(eng._and([pa, pb])), deep_eq(eng, ha.vals[k], hb.vals[k], st)]))
+                else:
+                    parts.append(deep_eq(eng, ha.vals[k], hb.vals[k], st))
+            return eng._and(parts)
+        if isinstance(ha, HObj):
+            if ha.cls != hb.cls or set(ha.attrs) != set(hb.attrs):
+                return False
+            return eng._and([deep_eq(eng, ha.attrs[k], hb.attrs[k], st) for k in ha.attrs])
+        return False
+    if isinstance(a, tuple) and isinstance(b, tuple):
+        if len(a) != len(b):
+            return False
+        return eng._and([deep_eq(eng, x, y, st) for x, y in zip(a, b)])
+    if isinstance(a, (Ref, tuple)) or isinstance(b, (Ref, tuple)):
+        return False
+    return eng.eq(a, b, st)
 
 
 def n_len(eng, args, kwargs, st):
